@@ -63,21 +63,23 @@ type Case struct {
 	CB     bool      `json:"coinbase,omitempty"`
 
 	// finality / sequence locks
-	LockTime uint32   `json:"locktime,omitempty"`
-	Seqs     []uint32 `json:"seqs,omitempty"`
-	Height   int32    `json:"height,omitempty"`
-	Time     int64    `json:"time,omitempty"`
-	Pattern  int      `json:"pattern,omitempty"`
-	CSV      bool     `json:"csv,omitempty"`
-	Tip      int      `json:"tip,omitempty"`
-	Version  int32    `json:"version,omitempty"`
-	Ages     []int    `json:"ages,omitempty"`
-	Mempool  bool     `json:"mempool,omitempty"`
-	Sec      int64    `json:"sec,omitempty"`
-	LockH    int32    `json:"lockh,omitempty"`
-	IsSecs   bool     `json:"issecs,omitempty"`
-	Value    uint32   `json:"value,omitempty"`
-	Want     int32    `json:"want,omitempty"`
+	LockTime    uint32   `json:"locktime,omitempty"`
+	Seqs        []uint32 `json:"seqs,omitempty"`
+	Height      int32    `json:"height,omitempty"`
+	Time        int64    `json:"time,omitempty"`
+	Pattern     int      `json:"pattern,omitempty"`
+	SidePattern int      `json:"side_pattern,omitempty"`
+	Fork        int      `json:"fork,omitempty"`
+	CSV         bool     `json:"csv,omitempty"`
+	Tip         int      `json:"tip,omitempty"`
+	Version     int32    `json:"version,omitempty"`
+	Ages        []int    `json:"ages,omitempty"`
+	Mempool     bool     `json:"mempool,omitempty"`
+	Sec         int64    `json:"sec,omitempty"`
+	LockH       int32    `json:"lockh,omitempty"`
+	IsSecs      bool     `json:"issecs,omitempty"`
+	Value       uint32   `json:"value,omitempty"`
+	Want        int32    `json:"want,omitempty"`
 }
 
 // SpendIn is one input of a sigop-cost case.
@@ -194,6 +196,8 @@ func runCase(c *Case) string {
 			return runLocksPure(c)
 		case "seqlock", "seqlock-real":
 			return runSeqlockStandalone(c)
+		case "seqlock-side":
+			return runSeqlockSideStandalone(c)
 		}
 		return "unknown sub-check " + c.Sub
 	})
@@ -233,6 +237,8 @@ func keyOf(c *Case) string {
 		return fmt.Sprintf("seqactive/sec=%d/h=%d/height=%d/mtp=%d", c.Sec, c.LockH, c.Height, c.Time)
 	case "lt2seq":
 		return fmt.Sprintf("lt2seq/secs=%v/v=%d", c.IsSecs, c.Value)
+	case "seqlock-side":
+		return fmt.Sprintf("seqlock-side/best=%d/side=%d/fork=%d/at=%d/ver=%d/mempool=%v/seqs=%x/ages=%v", c.Pattern, c.SidePattern, c.Fork, c.Tip, c.Version, c.Mempool, c.Seqs, c.Ages)
 	case "seqlock", "seqlock-real":
 		return fmt.Sprintf("%s/pattern=%d/csv=%v/tip=%d/ver=%d/mempool=%v/cb=%v/seqs=%x/ages=%v", c.Sub, c.Pattern, c.CSV, c.Tip, c.Version, c.Mempool, c.CB, c.Seqs, c.Ages)
 	}
@@ -326,13 +332,14 @@ func main() {
 	bindVectors()
 
 	r.Set("bounds", map[string]interface{}{
-		"merkle":     "tx-list length 1..33 x {as is, last entry duplicated} x {txid, wtxid form} x 4 witness-placement variants; paths: Tx.Hash/WitnessHash leaves, CalcMerkleRoot, BuildMerkleTreeStore (root + every interior node + empty slots), rolling store with size hints {0,1,n,n+1,2n,64,2^20}, rolling add forest roots; n=0 executed, not judged",
-		"commit":     "all sequences of 0..4 coinbase outputs over {unrelated, commitment, wrong-magic, 37-byte, 39-byte, header+wrong hash} x coinbase witness stack item sizes {none,[0],[31],[32],[33],[32,32],[32,0],[0,32]} x extra txs {none,[n],[w],[n,w],[w,w],[w,n,w]} x nonce {zero, non-zero}; ExtractWitnessCommitment (found + bytes) and ValidateWitnessCommitment (accept/reject)",
-		"weight":     "tx: sequences of input kinds (12: sigScript len 0/1/252/253/65535/65536 x witness item counts/lengths 0/252/253/65535/65536) x sequences of output kinds (pkScript len 0/1/252/253/65535/65536): quick len<=2 full + len 3 over sub-alphabets, thorough len<=3 full; element counts in/out/witness-items in {0,1,252,253,254}; block: 0,1,2,3,252,253,254 txs x {no witness, all witness, mixed}",
-		"sigops":     "every concatenation of <=3 (thorough 4) tokens of a 41-token alphabet (CHECKSIG(VERIFY), CHECKMULTISIG(VERIFY), OP_0, OP_1..16, 1NEGATE, RESERVED, NOP, DUP, CHECKSIGADD, 0xff, pushes 0x01/0x4b/0x4c/0x4d/0x4e complete, without length, with short data, 4GiB) and every byte string of length <=2 (thorough 3) for GetSigOpCount + accurate count; P2SH: (<=1 token + push(redeem <=2 tokens)), (push(redeem)+token), raw <=3-token scriptSigs, 8 near-P2SH pkScripts; witness: 23 program shapes x witness {nil,[],[[]],[s],[x,s],[s,x] for s<=2 tokens} x 9 nested scriptSig forms; GetSigOpCost/CountSigOps/CountP2SHSigOps on txs of 1..2 (thorough 3) inputs over 20 spend kinds x 4 output sets x bip16 x segwit + coinbases",
-		"cbheight":   "first byte 0x00..0xff x tails of 0..5 bytes over {00,01,7f,80,ff}; plus complete/short pushes of 5..75 bytes, PUSHDATA/opcodes first bytes, boundary heights with junk/non-minimal/truncated forms; ExtractCoinbaseHeight per script and CheckSerializedHeight for 6 (thorough 11) fixed + script-derived candidate heights",
-		"locks_pure": "IsFinalizedTransaction: locktime in {0,1,h-1,h,h+1,t-1,t,t+1,499999999,500000000,500000001,2^31-1,2^31,2^32-2,2^32-1} x 10 sequence patterns x 6 heights x 12 times; SequenceLockActive: 6x6 lock values around 5 heights x 7 MTPs; LockTimeToSequence: 8 block values, 14 second values (demanded only inside BIP68's range)",
-		"seqlock":    "5 timestamp patterns x CSV {always active, never active} x every tip height 0..14 of a real regtest-like chain x mempool flag x tx version {2,1,-1,0,3} x inputs: 1 input (12 sequence numbers x <=6 input ages {mempool,0,1,tip/2,tip-1,tip}), 2 inputs (full product for version 2, 4x3 sub-alphabet otherwise; thorough full), 3 inputs (4x3 sub-alphabet), coinbase-shaped txs, real coinbase utxos via FetchUtxoView; checked: (Seconds,BlockHeight) pair, SequenceLockActive for inclusion at tip+1 vs the per-input BIP68 statement, BestSnapshot().MedianTime vs BIP113",
+		"merkle":       "tx-list length 1..33 x {as is, last entry duplicated} x {txid, wtxid form} x 4 witness-placement variants; paths: Tx.Hash/WitnessHash leaves, CalcMerkleRoot, BuildMerkleTreeStore (root + every interior node + empty slots), rolling store with size hints {0,1,n,n+1,2n,64,2^20}, rolling add forest roots; n=0 executed, not judged",
+		"commit":       "all sequences of 0..4 coinbase outputs over {unrelated, commitment, wrong-magic, 37-byte, 39-byte, header+wrong hash} x coinbase witness stack item sizes {none,[0],[31],[32],[33],[32,32],[32,0],[0,32]} x extra txs {none,[n],[w],[n,w],[w,w],[w,n,w]} x nonce {zero, non-zero}; ExtractWitnessCommitment (found + bytes) and ValidateWitnessCommitment (accept/reject)",
+		"weight":       "tx: sequences of input kinds (12: sigScript len 0/1/252/253/65535/65536 x witness item counts/lengths 0/252/253/65535/65536) x sequences of output kinds (pkScript len 0/1/252/253/65535/65536): quick len<=2 full + len 3 over sub-alphabets, thorough len<=3 full; element counts in/out/witness-items in {0,1,252,253,254}; block: 0,1,2,3,252,253,254 txs x {no witness, all witness, mixed}",
+		"sigops":       "every concatenation of <=3 (thorough 4) tokens of a 41-token alphabet (CHECKSIG(VERIFY), CHECKMULTISIG(VERIFY), OP_0, OP_1..16, 1NEGATE, RESERVED, NOP, DUP, CHECKSIGADD, 0xff, pushes 0x01/0x4b/0x4c/0x4d/0x4e complete, without length, with short data, 4GiB) and every byte string of length <=2 (thorough 3) for GetSigOpCount + accurate count; P2SH: (<=1 token + push(redeem <=2 tokens)), (push(redeem)+token), raw <=3-token scriptSigs, 8 near-P2SH pkScripts; witness: 23 program shapes x witness {nil,[],[[]],[s],[x,s],[s,x] for s<=2 tokens} x 9 nested scriptSig forms; GetSigOpCost/CountSigOps/CountP2SHSigOps on txs of 1..2 (thorough 3) inputs over 20 spend kinds x 4 output sets x bip16 x segwit + coinbases",
+		"cbheight":     "first byte 0x00..0xff x tails of 0..5 bytes over {00,01,7f,80,ff}; plus complete/short pushes of 5..75 bytes, PUSHDATA/opcodes first bytes, boundary heights with junk/non-minimal/truncated forms; ExtractCoinbaseHeight per script and CheckSerializedHeight for 6 (thorough 11) fixed + script-derived candidate heights",
+		"locks_pure":   "IsFinalizedTransaction: locktime in {0,1,h-1,h,h+1,t-1,t,t+1,499999999,500000000,500000001,2^31-1,2^31,2^32-2,2^32-1} x 10 sequence patterns x 6 heights x 12 times; SequenceLockActive: 6x6 lock values around 5 heights x 7 MTPs; LockTimeToSequence: 8 block values, 14 second values (demanded only inside BIP68's range)",
+		"seqlock_side": "calcSequenceLock from the point of view of every block of an inactive side branch (hook VerifCalcSequenceLockAt): best chain of 14 blocks with timestamp pattern pm, equal-length side branch with pattern ps != pm forking at height {2,6,10} (60 worlds) x every side block x mempool flag x version {2,1} x 1 input (12 sequence numbers x input created at {mempool,0,fork,fork+1,fork+2,h-1,h}) and 2 inputs (4x3 squared); reference: BIP68 on the block's own ancestors' timestamps",
+		"seqlock":      "5 timestamp patterns x CSV {always active, never active} x every tip height 0..14 of a real regtest-like chain x mempool flag x tx version {2,1,-1,0,3} x inputs: 1 input (12 sequence numbers x <=6 input ages {mempool,0,1,tip/2,tip-1,tip}), 2 inputs (full product for version 2, 4x3 sub-alphabet otherwise; thorough full), 3 inputs (4x3 sub-alphabet), coinbase-shaped txs, real coinbase utxos via FetchUtxoView; checked: (Seconds,BlockHeight) pair, SequenceLockActive for inclusion at tip+1 vs the per-input BIP68 statement, BestSnapshot().MedianTime vs BIP113",
 	})
 
 	complete := true
@@ -347,6 +354,7 @@ func main() {
 		{"cbheight", enumHeight},
 		{"locks-pure", enumLocksPure},
 		{"seqlock", enumSeqlock},
+		{"seqlock-side", enumSeqlockSide},
 	}
 	timing := map[string]float64{}
 	for _, s := range steps {
